@@ -316,4 +316,80 @@ theorem chkEndHasStart_model : chkEndHasStart sp op (stepObs st op).2 = true := 
 
 end
 
+/-! ### The recorded trigger time is not before `start_time` (F-C05e, repaired by 2efb740) -/
+
+/-- Old/new version of one downtime across an operation: a trigger time that gets set is `≥ start`. -/
+def RLB (d d' : Dt) : Prop :=
+  d'.id = d.id ∧ d'.start = d.start ∧ (d.trigger ≠ 0 → d'.trigger = d.trigger) ∧
+  (d.trigger = 0 → d'.trigger ≠ 0 → d.start ≤ d'.trigger)
+
+theorem rlb_same {d d' : Dt} (h1 : d'.id = d.id) (h2 : d'.start = d.start) (h3 : d'.trigger = d.trigger) :
+    RLB d d' :=
+  ⟨h1, h2, fun _ => h3, fun h0 hn => absurd (h3.trans h0) hn⟩
+
+theorem stepRel_RLB (now : Int) : StepRel now (fun _ => True) (fun _ => True) RLB where
+  refl := fun d => rlb_same rfl rfl rfl
+  trans := by
+    intro a b c ⟨h1, h2, h3, h4⟩ ⟨g1, g2, g3, g4⟩
+    refine ⟨by omega, by omega, ?_, ?_⟩
+    · intro ha
+      have hb := h3 ha
+      rw [g3 (by rw [hb]; exact ha), hb]
+    · intro ha hc
+      by_cases hb : b.trigger = 0
+      · have := g4 hb hc; omega
+      · have := h4 ha hb
+        rw [g3 hb]; exact this
+  ctx := fun _ _ _ _ => trivial
+  trig := by
+    intro t d _ _ _ _
+    refine ⟨rfl, rfl, ?_, ?_⟩
+    · intro h; simp [trigSelf, noteTriggered, markTriggered, h]
+    · intro h0 _; simp [trigSelf, noteTriggered, markTriggered, h0]; omega
+  startT := fun _ _ _ _ _ => trivial
+  start := by
+    intro d _ _ _ _
+    refine ⟨rfl, rfl, ?_, ?_⟩
+    · intro h; simp [startSelf, trigSelf, noteTriggered, markTriggered, noteStarted, h]
+    · intro h0 _; simp [startSelf, trigSelf, noteTriggered, markTriggered, noteStarted, h0]; omega
+  remove := fun d _ _ => rlb_same rfl rfl rfl
+  setup := fun d _ _ => rlb_same rfl rfl rfl
+  addTrig := by
+    intro c d _ _
+    unfold addTrigger
+    split <;> exact rlb_same rfl rfl rfl
+  disarm := fun d _ _ _ _ => rlb_same rfl rfl rfl
+
+theorem rlb_setq (b : Bool) (d : Dt) : RLB d (setQuiet b d) := by
+  have h := setQuiet_eq b d
+  exact rlb_same h.1 h.2.2.2.2.1 h.2.2.1
+
+theorem pw_stepRLB (st : St) (op : Op) (hnd : (idsOf st.dts).Nodup) :
+    Pw RLB (preModel st op) (step st op).1.dts :=
+  pw_step st op (stepRel_RLB op.now) (fun _ _ r => r.1) hnd rlb_setq
+
+theorem chkTrigStart_model (sp : SpecSt) (st : St) (op : Op) (hrel : RelS sp st) (hnd : (idsOf st.dts).Nodup) :
+    chkTrigStart sp op (stepObs st op).2 = true := by
+  simp only [chkTrigStart, postDts]
+  rw [zip_map_all]
+  apply all_chain2 _ _ _ _ (pw_pre sp st op hrel.2.2.2.2.2.2 hnd)
+    (pw_and (pw_stepAll st op hnd) (pw_stepRLB st op hnd))
+  intro sd d d' _ hd hd' v r
+  obtain ⟨va, hlive⟩ := triple_facts sp st op hnd hd hd' v r.1
+  simp only [Bool.or_eq_true, Bool.not_eq_true', Bool.and_eq_false_iff, bne_eq_false_iff_eq, beq_eq_false_iff_ne,
+    decide_eq_true_eq]
+  cases hr' : d'.removed with
+  | true => left; left; left; rw [va.2.2.2.2.2.2.2.1, hr']; rfl
+  | false =>
+    have hr := hlive hr'
+    by_cases h0 : sd.trig = 0
+    · by_cases h1 : (SDt.after sp.paused (stepObs st op).2 sd).trig = 0
+      · left; right; exact h1
+      · right
+        have hw := r.2.2.2.2 (by rw [← v.2.2.2.2.2.2.2.2.1 hr]; exact h0)
+          (by rw [← va.2.2.2.2.2.2.2.2.1 hr']; exact h1)
+        rw [va.2.2.2.2.2.2.2.2.1 hr', v.2.2.1]
+        exact hw
+    · left; left; right; exact h0
+
 end Icinga.C05
